@@ -18,9 +18,22 @@ def run(ctx, race, name="sched.jsonl"):
         r["events"] = r.get("events") or []
         r["results"] = r.get("results") or []
     races = race_reports(out)
-    if not rows or (rc != 0 and not races):
+    crash = C.panic_excerpt(out) if rc != 0 else None
+    if (not rows and not crash) or (rc != 0 and not races and not crash):
         raise RuntimeError("server schedule harness did not run: rc=%s\n%s" % (rc, out[-2500:]))
-    return {"schedules": rows, "races": races, "race": race, "wall_s": dt, "ids": ids}
+    return {"schedules": rows, "races": races, "race": race, "wall_s": dt, "ids": ids, "crash": crash}
+
+
+def oracle_crash(obs):
+    """The proxy (newProxy() run in-process by the schedule harness) ended the process with a panic / fatal error: every request in flight is lost."""
+    if not obs.get("crash"):
+        return []
+    m = re.search(r"(panic: [^\n]*|fatal error: [^\n]*)", obs["crash"])
+    frames = re.findall(r"github.com/google/inverting-proxy/[^\n(]*\([^\n]*\n\t([^\n ]*)", obs["crash"])
+    return [("proxy-crashed", "the proxy ended the process while serving a schedule of concurrent clients (some of which hang up in the middle of a response): %s%s"
+             % (m.group(1) if m else "see excerpt", (" at " + frames[0]) if frames else ""),
+             {"driver": "go test TestVerifServerSchedules (real newProxy(), scripted agent, N concurrent clients)", "schedules_completed_before_the_crash": len(obs.get("schedules") or []),
+              "output_excerpt": obs["crash"]})]
 
 
 def oracle_ids(obs):
